@@ -2680,8 +2680,9 @@ func (r *stack) isEqual(o *stack) (err error) {
 		return
 	}
 
-	// Compare the kinds of stacks
-	if r.kind() != o.kind() {
+	// Compare the kinds of stacks (the type itself, not
+	// the word as presented: case folding is an option)
+	if r.stackType() != o.stackType() {
 		err = errorf("Stack kind mismatch")
 		return
 	}
